@@ -77,14 +77,15 @@ theorem C15_k_copies (g : Notes) (d : Gcda) (k : Nat) (br : Bool) (rk : List (By
 
 /-- A function is reported executed iff it was entered: the function at position `i` of the
 notes (unless a later function of the same file has the same name and replaces its entry) is
-reported with its start line and `executed = (count of its first arc > 0)`, where the count is
-the one `stop` leaves on arc 0 – the arc from the entry block into the body. (For CFGs whose
+reported with its start line and `executed = entered f c` = "it has an arc and the count of its
+first arc is > 0", where the count is the one `stop` leaves on arc 0 – the arc from the entry
+block into the body (a function without any arc is not executed). (For CFGs whose
 on-tree arcs form a spanning tree that count is the flow on the arc: `C08_flow_recovered`.) -/
 theorem C15_executed_iff_entered (g : Notes) (ds : List Gcda) (br : Bool) (r : List (Bytes × Cov))
     (fs pre post : List (Func × Cnt)) (f : Func) (c : Cnt)
     (hs : stopped g ds = ok fs) (h : compute g ds br = ok r) (e : fs = pre ++ (f, c) :: post)
     (hlast : ∀ fc ∈ post, ¬ (fc.1.fileName = f.fileName ∧ fc.1.name = f.name)) :
-    fnAt r f.fileName f.name = some ⟨f.startLine, decide (c.arc 0 > 0)⟩ := by
+    fnAt r f.fileName f.name = some ⟨f.startLine, entered f c⟩ := by
   rw [compute_eq, hs] at h
   exact foldl_finStep_fnAt br fs [] r pre post f c e h hlast
 
